@@ -156,9 +156,13 @@ def plan(ctx):
             units += [("arrays", 3, i, 0, 1) for i in range(len(A40))]
         else:
             units += [("arrays", 4, i, j, 4) for i in range(len(A40)) for j in range(4)]
+    units += [("shared", d, i, 4) for d in DRAFTS for i in range(4)]
     return {
         "units": units,
-        "rule": ("P: every ordered pair (a, b) of the universe V (JSON values of depth <= 2, width <= 2 over 16 "
+        "rule": ("S: one long-lived validator object per draft is handed a NEW schema object for every call "
+                 "(is_valid(instance, schema)), for every ordered pair of the 40-value sub-universe and the four "
+                 "forms in turn, so anything remembered about a schema object that no longer exists would be "
+                 "observed.  P: every ordered pair (a, b) of the universe V (JSON values of depth <= 2, width <= 2 over 16 "
                  "atoms; V is de-duplicated by JSON text, so 1 / 1.0 / true and the two key orders stay "
                  "distinct members) is executed as {const: a} on b (drafts 6, 7), {enum: [a]} on b, "
                  "{enum: [x(a), a]} on b and {uniqueItems: true} on [a, b] (drafts 3, 4, 6, 7): 14 executions per "
@@ -550,9 +554,70 @@ def run_arrays(unit, ctx):
             "outcomes": outcomes, "counters": {"violating_executions": bag.total, "arrays": count}}
 
 
+def fresh_copy(x):
+    return json.loads(json.dumps(x))
+
+
+def shared_step(w, form, a, x, b):
+    """One call on the long-lived validator `w` with a schema object that lives for this call only."""
+    if form == "const":
+        return observe_with(w, b, {"const": fresh_copy(a)})
+    if form == "enum1":
+        return observe_with(w, b, {"enum": [fresh_copy(a)]})
+    if form == "enum2":
+        return observe_with(w, b, {"enum": [fresh_copy(x), fresh_copy(a)]})
+    return observe_with(w, [fresh_copy(a), b], {"uniqueItems": True})
+
+
+def observe_with(w, inst, schema):
+    try:
+        return w.is_valid(inst, schema)
+    except Exception as e:     # noqa
+        return "crash-" + type(e).__name__
+
+
+def run_shared(unit, ctx):
+    """ONE validator object per draft answers for many short-lived schemas (is_valid(instance, schema), the way
+    `descend` uses it): every ordered pair of the 40-value sub-universe, the four forms one after the other."""
+    _, d, shard, nsh = unit
+    w = CLS[d]({})
+    bag = Bag()
+    ev = nt = 0
+    outcomes = {}
+    n = len(A40)
+    prev = None
+    for ia in range(shard, n, nsh):
+        a, ka = A40[ia], KA40[ia]
+        x = A40[(ia + 7) % n]
+        kx = KA40[(ia + 7) % n]
+        if kx == ka:
+            x, kx = A40[(ia + 8) % n], KA40[(ia + 8) % n]
+        for ib in range(n):
+            b = A40[ib]
+            eq = ka == KA40[ib]
+            for form in (("const", "enum1", "enum2", "uniqueItems") if d >= 6 else ("enum1", "enum2", "uniqueItems")):
+                g = shared_step(w, form, a, x, b)
+                exp = (eq or kx == KA40[ib]) if form == "enum2" else ((not eq) if form == "uniqueItems" else eq)
+                ev += 1
+                nt += family(a) == family(b)
+                oc = "shared:%s:%s" % (form, "valid" if exp else "invalid")
+                outcomes[oc] = outcomes.get(oc, 0) + 1
+                if g is not exp:
+                    bag.add({"signature": "C08|shared-validator|%s|%s" % (form, kind_of(form, g, exp)),
+                             "size": size_of(a, b),
+                             "case": {"draft": d, "form": "shared-validator", "calls": [prev, [form, a, x, b]] if prev else [[form, a, x, b]]},
+                             "detail": {"observed": g, "expected_valid": exp,
+                                        "note": "one validator object, a new schema object for every call"}})
+                prev = [form, a, x, b]
+    return {"evaluations": ev, "nontrivial": nt, "violations": bag.all(), "samples": [],
+            "outcomes": outcomes, "counters": {"violating_executions": bag.total, "shared_validator_calls": ev}}
+
+
 def run_unit(unit, ctx):
     if unit[0] == "pairs":
         return run_pairs(unit, ctx)
+    if unit[0] == "shared":
+        return run_shared(unit, ctx)
     return run_arrays(unit, ctx)
 
 
@@ -561,6 +626,15 @@ def replay(case, ctx):
     if case["form"] == "check_schema":
         ok = check_schema_ok(d, case["schema"])
         return {"reproduced": not ok, "check_schema_accepts": ok}
+    if case["form"] == "shared-validator":
+        w = CLS[d]({})
+        got = None
+        for form, a, x, b in case["calls"]:
+            got = shared_step(w, form, a, x, b)
+        form, a, x, b = case["calls"][-1]
+        S, inst = build_case(form, a, b, x)
+        exp = equality.expected_valid(S, inst)
+        return {"reproduced": got is not exp, "observed": got, "expected_valid": exp}
     if case["form"] == "three-way":
         a, b = case["a"], case["b"]
         yes, says = three_way(d, a, b)
